@@ -13,9 +13,10 @@ from mc.run import Stats, explore
 ASSUME = [
     "UTC projects only; project durations in d/w (month/year durations are not shift-invariant windows and are not generated)",
     "dates moved: project start, task start/end pins, resource leaves/vacations/bookings, project vacations and leaves",
-    "starts {2024-12-02, 2024-12-23, 2025-02-24, 2026-12-14, 2027-02-22, 2024-02-19 (leap day inside the window)}; offsets in weeks listed in coverage",
+    "starts {2024-12-02, 2024-12-23, 2025-02-24, 2026-12-14, 2027-02-22, 2024-02-19 (leap day inside the window)} and, for bases with limits, {2027-01-01 (ISO 2026-W53), 2028-01-01 (ISO 2027-W52), 2025-12-10 (window ends 12-31)}; offsets in weeks listed in coverage",
 ]
-STARTS = ["2024-12-02", "2024-12-23", "2025-02-24", "2026-12-14", "2027-02-22", "2024-02-19"]
+STARTS = ["2024-12-02", "2024-12-23", "2025-02-24", "2026-12-14", "2027-02-22", "2024-02-19",
+          "2027-01-01", "2028-01-01", "2025-12-10"]   # a start in the last ISO week of the previous year; a window that ends 12-31
 KS_Q = [1, 4, 5, 26, 52, 53, 104, 157]
 KS_T = [1, 2, 3, 4, 5, 8, 26, 51, 52, 53, 54, 104, 105, 157, 209, 261]
 
@@ -91,6 +92,13 @@ def long_bases():
 def universe(tier):
     ks = KS_Q if tier == "quick" else KS_T
     starts = [STARTS[1], STARTS[2], STARTS[5]] if tier == "quick" else STARTS
+    # ISO-year boundary starts: every base with a limit (the weekly / daily counters are what depends on the calendar position)
+    for b in bases(tier):
+        if b["lim"] == "none":
+            continue
+        for s in STARTS[6:]:
+            for k in ((1, 52, 53) if tier == "quick" else (1, 2, 4, 26, 52, 53, 104)):
+                yield {"b": b, "start": s, "k": k}
     for b in bases(tier):
         for s in starts:
             for k in ks:
